@@ -39,6 +39,9 @@ type Global struct {
 	// NoMethodOff (only without NoMethod): a no-method handler is configured and then switched off again by a later
 	// WithNoMethod(false): options apply in order, so unserved requests end in the no-route handler.
 	NoMethodOff bool `json:"no_method_off,omitempty"`
+	// OneTxn: the routes are registered in one write transaction by a set-up routine that is idempotent the easy way: after each
+	// registration it registers the first route of that method again and tolerates the refusal.
+	OneTxn bool `json:"one_txn,omitempty"`
 	// DefaultSpecials: fox's own 405 and automatic-OPTIONS handlers stay in place (WithNoMethod(true) / WithAutoOptions(true));
 	// they are observed by a middleware scoped to them instead of being replaced.
 	DefaultSpecials bool `json:"default_specials,omitempty"`
@@ -314,6 +317,24 @@ func New(g Global, specs []RouteSpec) (*Router, error) {
 		}
 	}
 	r := &Router{F: f, Sink: sink, G: g}
+	if g.OneTxn {
+		txn := f.Txn(true)
+		first := map[string]string{}
+		for _, s := range specs {
+			if _, err := txn.Handle(s.Method, s.Pattern, sink.Handler(s.Pattern), RouteOptions(s.TS)...); err == nil {
+				r.Routes = append(r.Routes, s)
+				if _, ok := first[s.Method]; !ok {
+					first[s.Method] = s.Pattern
+				}
+				if _, err := txn.Handle(s.Method, first[s.Method], sink.Handler(first[s.Method])); err == nil {
+					txn.Abort()
+					return nil, fmt.Errorf("%s %s was registered twice in one transaction", s.Method, first[s.Method])
+				}
+			}
+		}
+		txn.Commit()
+		return r, nil
+	}
 	for _, s := range specs {
 		if _, err := f.Handle(s.Method, s.Pattern, sink.Handler(s.Pattern), RouteOptions(s.TS)...); err == nil {
 			r.Routes = append(r.Routes, s)
